@@ -108,10 +108,38 @@ Theorem bytes_index_first needle hay k : bytes_index needle hay = Some k ->
   forall j, (j < Z.to_nat k)%nat -> prefix_at needle (skipn j hay) = false.
 Proof. intro H. apply find_sub_spec in H. now rewrite Z.sub_0_r in H. Qed.
 
+(* the aligned search: the first multiple of the character width at which the termination bytes occur *)
+Lemma skipn_skipn_add {A} a b (l : list A) : skipn a (skipn b l) = skipn (b + a) l.
+Proof. revert l. induction b as [|b IH]; intro l; cbn [skipn Nat.add]; [reflexivity|]. destruct l; [now rewrite skipn_nil|apply IH]. Qed.
+Lemma find_aligned_spec w needle : forall fuel hay i k, find_aligned fuel w needle hay i = Some k ->
+  exists q : nat, k = i + Z.of_nat (w * q) /\ prefix_at needle (skipn (w * q) hay) = true /\
+  forall j, (j < q)%nat -> prefix_at needle (skipn (w * j) hay) = false.
+Proof.
+  induction fuel as [|f IH]; intros hay i k H; cbn [find_aligned] in H; [discriminate|].
+  fold (prefix_at needle hay) in H. destruct (prefix_at needle hay) eqn:P.
+  - injection H as <-. exists 0%nat. rewrite Nat.mul_0_r. cbn [skipn]. repeat split; auto; [lia|]. intros j Hj. lia.
+  - destruct hay as [|h t]; [discriminate|]. apply IH in H as (q & H1 & H2 & H3). exists (S q).
+    rewrite skipn_skipn_add in H2. replace (w * S q)%nat with (w + w * q)%nat by lia. repeat split; auto; [lia|].
+    intros [|j] Hj; [rewrite Nat.mul_0_r; exact P|]. replace (w * S j)%nat with (w + w * j)%nat by lia. rewrite <- skipn_skipn_add. apply H3. lia.
+Qed.
+Theorem term_index_first cs needle hay k : term_index cs needle hay = Some k ->
+  exists q : nat, k = Z.of_nat (char_width cs * q) /\ prefix_at needle (skipn (char_width cs * q) hay) = true /\
+  forall j, (j < q)%nat -> prefix_at needle (skipn (char_width cs * j) hay) = false.
+Proof. intro H. apply find_aligned_spec in H as (q & H1 & H2 & H3). exists q. repeat split; auto. Qed.
+(* single-byte character sets: the plain byte search *)
+Lemma find_aligned_1 needle : forall fuel hay i, find_aligned fuel 1 needle hay i = find_sub fuel needle hay i.
+Proof.
+  induction fuel as [|f IH]; intros hay i; [reflexivity|]. cbn [find_aligned find_sub].
+  destruct ((List.length needle <=? List.length hay)%nat && forallb (fun ab => fst ab =? snd ab) (combine needle hay)); [reflexivity|].
+  destruct hay as [|h t]; [reflexivity|]. cbn [skipn]. apply IH.
+Qed.
+Theorem term_index_single_byte cs needle hay : char_width cs = 1%nat -> term_index cs needle hay = bytes_index needle hay.
+Proof. intro H. unfold term_index, bytes_index. rewrite H. apply find_aligned_1. Qed.
+
 (* ---------- the whole string field ---------- *)
 Definition delimit (e : string_enc) (buf : list Z) : res (list Z) :=
   let by_term := match se_term e with
-                 | Some term => match bytes_index term buf with
+                 | Some term => match term_index (se_charset e) term buf with
                                 | Some i => '(bs, _) <- read_as_bytes {| cdata := buf; cpos := 0 |} (i * 8) ;; Ok bs
                                 | None => Err EValue end
                  | None => Ok buf end in
@@ -139,11 +167,11 @@ Proof. intros H1 H2. unfold delimit. now rewrite H1, H2. Qed.
 
 (* terminated text: the bytes before the first occurrence of the termination character *)
 Lemma delimit_terminated e buf term k : wf buf -> se_leading e = None -> se_term e = Some term ->
-  bytes_index term buf = Some k -> k <= zlen buf ->
+  term_index (se_charset e) term buf = Some k -> k <= zlen buf ->
   delimit e buf = Ok (firstn (Z.to_nat k) buf).
 Proof.
   intros Hwf H1 H2 H3 Hk. unfold delimit. rewrite H1, H2, H3.
-  destruct (bytes_index_first _ _ _ H3) as (Hk0 & _).
+  assert (Hk0 : 0 <= k) by (destruct (term_index_first _ _ _ _ H3) as (q & -> & _); lia).
   rewrite read_bytes_spec by (assumption || lia). cbn [bind]. f_equal.
   unfold spec_bytes. rewrite <- window_spec by (assumption || lia).
   rewrite <- aligned_slice; try (assumption || lia).
